@@ -220,6 +220,17 @@ def run(ctx):
         lp = line.get_full_logprobs()
         if np.abs(np.exp(lp).sum(axis=1) - 1).max() > 1e-9:
             ctx.violation('dense-normalised', 'full log-probs are not row-normalised', dict(matrix=st.tolist()))
+        # the floor is a parameter of every call: repeated reconstructions of the SAME line with different floors
+        for floor in (rng.choice([-50.0, -20.0, -120.0]), -80, rng.choice([-30.0, -99.0])):
+            d2 = line.get_dense_logits(floor)
+            if not np.array_equal(d2[st != 0], st[st != 0]) or not np.all(d2[st == 0] == floor):
+                ctx.violation('dense-floor', 'dense reconstruction does not return the requested floor for pruned entries', dict(matrix=st.tolist(), floor=floor))
+            lp2 = line.get_full_logprobs(floor)
+            ref = d2 - np.logaddexp.reduce(d2, axis=1)[:, np.newaxis]
+            if np.abs(lp2 - ref).max(initial=0) > 1e-9 or np.abs(np.exp(lp2).sum(axis=1) - 1).max(initial=0) > 1e-9:
+                ctx.violation('dense-floor-logprobs', 'log-probabilities are not the row-normalised dense logits for the requested floor', dict(matrix=st.tolist(), floor=floor))
+        if lg.nnz != (st != 0).sum() or not np.array_equal(lg.toarray(), st):
+            ctx.violation('dense-mutates', 'dense reconstruction modified the stored sparse logits', dict(matrix=st.tolist()))
     # end-to-end rebuild: PAGE XML + logits -> same greedy text, same ALTO words
     e2e(ctx, rng)
     if ctx.driver_ok:
